@@ -114,6 +114,7 @@ fn describe_values(vs: &[RValue]) -> String {
 					let kind = match xs.first() {
 						Some(RValue::Str(s)) if s == "x" => "small",
 						Some(RValue::Str(s)) if s == "p" => "pushed",
+						Some(RValue::Str(s)) if s == "h" => "huge",
 						_ => "big",
 					};
 					format!("{kind}#{a}")
@@ -229,7 +230,7 @@ fn eval_history(d: &Datum, u: &Unit, h: &[Op], cover: &mut Cover, verbose: bool)
 		let grew = at >= 1 && !t.sinks[at - 1].is_empty() && sink.len() > t.sinks[at - 1].len();
 		let prev_hook = t.records[at - 1].hook;
 		match op {
-			Op::Small | Op::Big | Op::SmallRev | Op::BigMix | Op::Push1 | Op::Push2 => {
+			Op::Small | Op::Big | Op::SmallRev | Op::BigMix | Op::Huge(_) | Op::Push1 | Op::Push2 => {
 				if rec.result.is_ok() {
 					cover.count("value_ops_ok", 1);
 					if matches!(op, Op::SmallRev | Op::BigMix) {
@@ -322,6 +323,69 @@ fn all_ops(d: &Datum) -> Vec<Op> {
 
 fn violation(u: &Unit, mode: &str, h: &[Op], class: &str, what: &str) -> Violation {
 	Violation { class: class.to_owned(), what: format!("{}; history [{}]: {what}", u.label(), cfw::hist_names(h).join(", ")), replay: replay_token(u, mode, h) }
+}
+
+// ---------------------------------------------------------------------------------------------
+// Large-block templates: blocks whose stored form exceeds the codecs' 32 KiB starting output
+// buffer (and 64 KiB, its first doubling), before / between / after small blocks.
+
+/// (approx_block_size, history). `ser_huge(k)` carries k KiB of poorly compressible text
+/// (about 7/8 of its size once entropy-coded: 40 -> ~35 KiB, 80 -> ~70 KiB).
+fn large_block_templates() -> Vec<(u32, Vec<Op>)> {
+	use Op::*;
+	vec![
+		// small | >32 KiB (buffer grows now) | small, small | >64 KiB cut inside serialize (grows again) | small | >32 KiB by into_inner (grew earlier)
+		(64 * 1024, vec![Small, Finish, Huge(40), Finish, Small, SmallRev, Finish, Huge(80), Small, Finish, Huge(40), IntoInner]),
+		// the first block needs two doublings in one go; later blocks fit the grown buffer; last block by drop
+		(64 * 1024, vec![Huge(80), Small, Finish, Huge(40), Drop]),
+		// one block holding small + 40 KiB + 80 KiB + small (>96 KiB stored), then a small block
+		(1024 * 1024, vec![Small, Huge(40), Huge(80), Small, Finish, Small, IntoInner]),
+		// every huge value cuts its block by size, together with the small values before it
+		(16 * 1024, vec![Small, Huge(40), Small, Huge(40), Big, Huge(80), Small, IntoInner]),
+	]
+}
+
+/// One template on one codec: the file invariant in the state after every call.
+fn run_template_unit(d: &Datum, u: &Unit, ops: &[Op]) -> (Cover, Vec<Violation>) {
+	let mut cover = Cover::default();
+	let mut out = Vec::new();
+	let t = execute(d, u, ops, true);
+	cover.impl_runs += 1;
+	cover.nontrivial.insert(hash64(&("template", u.codec, u.block_size, ops)));
+	if let Some((class, what)) = panic_verdict(d, u, &t) {
+		out.push(violation(u, "bfs", &ops[..t.records.iter().position(|r| r.result.is_panic()).unwrap_or(ops.len()).min(ops.len())], &class, &what));
+		return (cover, out);
+	}
+	for (i, rec) in t.records.iter().enumerate() {
+		cover.states += 1;
+		cover.transitions += 1;
+		cover.evaluations += 1;
+		cover.count("template_states_judged", 1);
+		if rec.result.is_err() {
+			cover.count("conforming_value_op_returned_err", 1);
+		}
+		let expected = expected_after(&t.records[..=i]);
+		if let Err((class, what)) = judge_state(d, u, rec, &t.sinks[i], &expected, &mut cover) {
+			out.push(violation(u, "bfs", &ops[..i], &class, &what));
+			return (cover, out);
+		}
+	}
+	// what was written and judged: stored block sizes of the final file
+	if let Ok(ins) = cfw::inspect(d, u.codec, t.sinks.last().map_or(&[][..], |s| &s[..])) {
+		for &sz in &ins.block_stored_sizes {
+			if sz > 32 * 1024 {
+				cover.count(&format!("blocks_stored_over_32KiB_{}", u.codec), 1);
+			}
+			if sz > 64 * 1024 {
+				cover.count(&format!("blocks_stored_over_64KiB_{}", u.codec), 1);
+			}
+		}
+		cover.outcomes.insert(hash64(&(u.codec, &ins.block_counts, &ins.block_stored_sizes)));
+		if u.codec == "deflate" && cover.samples.is_empty() {
+			cover.sample(json!({"unit": u.label(), "template": cfw::hist_names(ops), "block_counts": ins.block_counts, "block_stored_sizes": ins.block_stored_sizes}));
+		}
+	}
+	(cover, out)
 }
 
 fn run_bfs_unit(d: &Datum, u: &Unit, depth: usize, max_states: u64) -> (Cover, Vec<Violation>) {
@@ -538,7 +602,7 @@ pub fn run(rep: &mut Report) {
 	let diff_full_depth_null_codec = if thorough { 4 } else { 3 };
 	let (max_states, max_diff) = if thorough { (400_000u64, 2_000_000u64) } else { (60_000u64, 200_000u64) };
 	rep.rule = format!(
-		"HIST: units = datum x codec x approx_block_size ({} codecs; datum 'record': schema {}, small value {} bytes, big value {} bytes, block sizes {:?}, operations {:?}; datum 'null': schema \"null\", every value zero bytes long, block sizes {:?}, operations {:?}). Per unit an explicit-state BFS to depth {bfs_depth} over the operations on a real Writer over an accept-all ScheduledSink; record values are numbered by acceptance order so every datum in a file is distinct; a state is rebuilt by replaying its history; exact key = sink bytes + hook Writer::verif_state() (n_elements_in_block, header pending, open buffer length) + the list of values accepted so far + the lengths of the non-empty buffers pooled in the SerializerConfig (hook verif_pools(), read once the writer is gone; empty pooled buffers are taken to behave like fresh ones); in every state the sink is parsed by vmodel::container::cf_parse (header schema/codec/pinned sync, whole blocks, sync after every block, codec framing through independent implementations) and every block is decoded datum by datum with vmodel::value::decode (count datums exactly fill the block); oracle: the values in the file are a prefix of the values of the calls that returned Ok, all of them after finish_block / into_inner / drop, and every non-terminal state is additionally closed with into_inner and must then hold all of them exactly once; failing values (injected failure at each nested serialize call of the value, in schema order and in reverse field order — i.e. with fields put aside in pooled side buffers outstanding —, wrong type, array shorter than advertised) must return Err; ser_small_rev / ser_big_mix present the record fields (incl. the nested record's) out of schema order, same expected bytes; a panic of any call is a violation of its own class, the writer is then dropped under catch_unwind and the sink inspected again (classes call-panicked, call-panicked-then-wrong-file, call-panicked-then-invalid-file). Differential: every history of 1..={diff_depth} non-terminal operations (full alphabet up to length {diff_full_depth}, {diff_full_depth_null_codec} for the null codec; the reduced alphabet {:?} beyond) with at least one failing call, closed by into_inner and by drop, must leave the same sink bytes after every non-failing call and the same final file as the history with the failing calls deleted. Non-trivial: BFS histories with at least one accepted value (distinct on unit + history); every differential history. Accounting: states = distinct exact BFS states (counter bfs_distinct_states) + enumerated differential history bodies; transitions = operations applied by the BFS (bfs_transitions) + differential bodies; executions = histories replayed on the real crate (BFS builds incl. their into_inner close-out, differential histories, their reference histories).",
+		"HIST: units = datum x codec x approx_block_size ({} codecs; datum 'record': schema {}, small value {} bytes, big value {} bytes, block sizes {:?}, operations {:?}; datum 'null': schema \"null\", every value zero bytes long, block sizes {:?}, operations {:?}). Per unit an explicit-state BFS to depth {bfs_depth} over the operations on a real Writer over an accept-all ScheduledSink; record values are numbered by acceptance order so every datum in a file is distinct; a state is rebuilt by replaying its history; exact key = sink bytes + hook Writer::verif_state() (n_elements_in_block, header pending, open buffer length) + the list of values accepted so far + the lengths of the non-empty buffers pooled in the SerializerConfig (hook verif_pools(), read once the writer is gone; empty pooled buffers are taken to behave like fresh ones); in every state the sink is parsed by vmodel::container::cf_parse (header schema/codec/pinned sync, whole blocks, sync after every block, codec framing through independent implementations) and every block is decoded datum by datum with vmodel::value::decode (count datums exactly fill the block); oracle: the values in the file are a prefix of the values of the calls that returned Ok, all of them after finish_block / into_inner / drop, and every non-terminal state is additionally closed with into_inner and must then hold all of them exactly once; failing values (injected failure at each nested serialize call of the value, in schema order and in reverse field order — i.e. with fields put aside in pooled side buffers outstanding —, wrong type, array shorter than advertised) must return Err; ser_small_rev / ser_big_mix present the record fields (incl. the nested record's) out of schema order, same expected bytes; a panic of any call is a violation of its own class, the writer is then dropped under catch_unwind and the sink inspected again (classes call-panicked, call-panicked-then-wrong-file, call-panicked-then-invalid-file). Differential: every history of 1..={diff_depth} non-terminal operations (full alphabet up to length {diff_full_depth}, {diff_full_depth_null_codec} for the null codec; the reduced alphabet {:?} beyond) with at least one failing call, closed by into_inner and by drop, must leave the same sink bytes after every non-failing call and the same final file as the history with the failing calls deleted. Large-block templates (all 6 codecs in both tiers): the fixed histories {:?} (approx_block_size, operations; ser_huge(k) = a record carrying k KiB of 7-bit text from a fixed xorshift64 sequence, ~7/8 of its size after entropy coding) put blocks whose stored size exceeds 32 KiB and 64 KiB (the codecs' output buffer starts at 32 KiB and doubles) before, between and after small blocks; the same invariant is evaluated on the sink after every call. Non-trivial: BFS histories with at least one accepted value (distinct on unit + history); every differential history. Accounting: states = distinct exact BFS states (counter bfs_distinct_states) + enumerated differential history bodies; transitions = operations applied by the BFS (bfs_transitions) + differential bodies; executions = histories replayed on the real crate (BFS builds incl. their into_inner close-out, differential histories, their reference histories).",
 		if thorough { 6 } else { 3 },
 		ds[0].schema_text,
 		ds[0].small_len,
@@ -548,6 +612,7 @@ pub fn run(rep: &mut Report) {
 		ds[1].block_sizes(),
 		all_ops(&ds[1]).iter().map(|o| o.name()).collect::<Vec<_>>(),
 		cfw::reduced_ops(&ds[0]).iter().map(|o| o.name()).collect::<Vec<_>>(),
+		large_block_templates().iter().map(|(bs, ops)| (bs, cfw::hist_names(ops))).collect::<Vec<_>>(),
 	);
 	rep.assumptions.push("vmodel::container::cf_parse / vmodel::value::decode implement the Avro 1.11 container and binary encodings (codec framing via libflate, snap + own CRC-32, streaming bzip2/xz, zstd decode_all)".into());
 	rep.assumptions.push("the writer is deterministic once the sync marker is pinned, so equal exact keys have equal futures".into());
@@ -563,14 +628,27 @@ pub fn run(rep: &mut Report) {
 		work.extend(cfw::nonterminal_ops(&ds[u.datum]).into_iter().map(|f| (i, Some(f))));
 	}
 	let per_item_cap = max_diff / 8;
-	let results: Vec<(Cover, Vec<Violation>)> = work
+	// large-block templates: every codec in both tiers (units of their own, after the enumerated ones)
+	let templates = large_block_templates();
+	let template_units: Vec<(Unit, usize)> =
+		cfw::CODECS_ALL.iter().flat_map(|&codec| templates.iter().enumerate().map(move |(ti, (bs, _))| (Unit { datum: 0, datum_id: "record", codec, block_size: *bs }, ti))).collect();
+	rep.extra.insert("large_block_template_units".into(), json!(template_units.len()));
+	enum Work {
+		Bfs(usize),
+		Diff(usize, Op),
+		Template(usize),
+	}
+	let mut items: Vec<Work> = (0..template_units.len()).map(Work::Template).collect();
+	items.extend(work.iter().map(|&(i, first)| match first {
+		Some(f) => Work::Diff(i, f),
+		None => Work::Bfs(i),
+	}));
+	let results: Vec<(Cover, Vec<Violation>)> = items
 		.par_iter()
-		.map(|&(i, first)| {
-			let d = &ds[us[i].datum];
-			match first {
-				Some(f) => run_diff_unit(d, &us[i], if us[i].codec == "null" { diff_full_depth_null_codec } else { diff_full_depth }, diff_depth, per_item_cap, f),
-				None => run_bfs_unit(d, &us[i], bfs_depth, max_states),
-			}
+		.map(|w| match *w {
+			Work::Diff(i, f) => run_diff_unit(&ds[us[i].datum], &us[i], if us[i].codec == "null" { diff_full_depth_null_codec } else { diff_full_depth }, diff_depth, per_item_cap, f),
+			Work::Bfs(i) => run_bfs_unit(&ds[us[i].datum], &us[i], bfs_depth, max_states),
+			Work::Template(k) => run_template_unit(&ds[0], &template_units[k].0, &templates[template_units[k].1].1),
 		})
 		.collect();
 	for (c, v) in results {
@@ -578,6 +656,16 @@ pub fn run(rep: &mut Report) {
 		rep.violations.extend(v);
 	}
 	// vacuity guards: behaviours the verdict relies on
+	if rep.violations.is_empty() {
+		for codec in cfw::CODECS_ALL {
+			for k in [format!("blocks_stored_over_32KiB_{codec}"), format!("blocks_stored_over_64KiB_{codec}")] {
+				if rep.cover.counters.get(&k).copied().unwrap_or(0) == 0 {
+					eprintln!("MACHINERY: C15 vacuity guard: counter {k} is 0 — no block of that stored size was written and judged for this codec");
+					std::process::exit(2);
+				}
+			}
+		}
+	}
 	let need = [
 		"value_ops_ok",
 		"blocks_cut_by_size",
